@@ -249,12 +249,14 @@ def check(prop, tier, replay=None):
 # mode "final": compare final dates with the terminal state (C07: equality with the reference is the property);
 # mode "trace": every project of the universe is traced and judged by the property predicates of TraceSched
 MC_PLAN = {
-    "C07": [("MC_Core", "MC_Core.cfg", "MC_CoreFull.cfg", "+1w", "final")],
-    "C01": [("MC_SubSlot", None, "MC_SubSlot.cfg", "+1w", "trace")],
-    "C03": [("MC_SubSlot", None, "MC_SubSlot.cfg", "+1w", "trace")],
+    "C07": [("MC_Core", "MC_Core.cfg", "MC_CoreFull.cfg", "+1w", "final"), ("MC_Tree", "MC_Tree.cfg", "MC_TreeFull.cfg", "+1w", "final")],
+    "C10": [("MC_Tree", "MC_Tree.cfg", "MC_TreeFull.cfg", "+1w", "trace")],
+    "C01": [("MC_SubSlot", None, "MC_SubSlot.cfg", "+1w", "trace"), ("MC_Team", None, "MC_Team.cfg", "+1w", "trace")],
+    "C03": [("MC_SubSlot", None, "MC_SubSlot.cfg", "+1w", "trace"), ("MC_Alt", "MC_Alt.cfg", "MC_AltFull.cfg", "+1w", "trace"),
+            ("MC_Team", None, "MC_TeamFull.cfg", "+1w", "trace")],
     "C06": [("MC_SubSlot", None, "MC_SubSlot.cfg", "+1w", "trace"), ("MC_Alap", None, "MC_Alap.cfg", "+1w", "trace")],
     "C08": [("MC_Alap", None, "MC_Alap.cfg", "+1w", "trace"), ("MC_Core", None, "MC_Core.cfg", "+1w", "trace")],
-    "C04": [("MC_Alap", None, "MC_AlapFull.cfg", "+1w", "trace")],
+    "C04": [("MC_Alap", None, "MC_AlapFull.cfg", "+1w", "trace"), ("MC_Tree", None, "MC_TreeFull.cfg", "+1w", "trace")],
     "C05": [("MC_Limits", None, "MC_Limits.cfg", "+2w", "trace")],
 }
 
@@ -311,8 +313,20 @@ def run_universes(run, scr, prop, tier):
                     if bad <= 20:
                         job = by_id[r["id"]]
                         run.violation(r["id"], {"id": job["id"], "text": job["text"], "abstract": job["abstract"], "scenarios": [0]}, summary)
+            # spec -> code: final dates of the implementation vs the terminal state of Sched (informational here: equality with the
+            # reference is C07's claim and only for its dialect; a disagreement elsewhere is a modelling gap to close, not a verdict)
+            disagree = 0
+            rec_by = {r["id"]: r for r in recs}
+            for i, t in enumerate(terms):
+                r = rec_by.get("%s-%s-u%06d" % (prop, module, i))
+                exp = [(f["sched"], f["start"] if f["sched"] else -1, f["end"] if f["sched"] else -1) for f in t["final"]]
+                have = [(f["sched"], f["start"] if f["sched"] else -1, f["end"] if f["sched"] else -1) for f in (r or {}).get("final", [])]
+                if exp != have:
+                    disagree += 1
             run.notes.setdefault("universes", []).append({"module": module, "projects": len(jobs), "states": res.distinct, "violating": bad,
-                                                          "mode": "every project traced and judged by TraceSched"})
+                                                          "mode": "every project traced and judged by TraceSched",
+                                                          "final_dates_differ_from_Sched_tla": disagree,
+                                                          "steps_differ_from_SchedCore": len([1 for v in vs.values() if not v.conf])})
         run.cov["exhaustive"] = True
 
 
